@@ -278,18 +278,21 @@ class Spec:
         self._conf = c
         self.last_proto.update({s_: p_ for s_, p_ in c.services.items() if p_})
         # the service records: a configured service has one; a service that a reload dropped keeps its record for as
-        # long as the daemon counts outstanding queries for it (that count only goes down when a reply other than NO is
-        # heard by a waiting client, so queries of clients that left unanswered keep the record for good).  When the
-        # record goes, so does everything clients remember about that service: a service configured later - under the
-        # same name or another - starts from scratch with every client.
-        if not hasattr(self, "records"):
-            self.records = {}
-        for s_ in [s_ for s_ in self.records if not c.services.get(s_)]:
-            if self.records[s_] == 0:
-                self.release_record(s_)
+        # long as a live client still awaits its answer.  When the record goes, so does everything clients remember
+        # about that service: a service configured later - under the same name or another - starts from scratch with
+        # every client.
+        self.sweep_records()
         for s_, p_ in c.services.items():
             if p_:
                 self.records.setdefault(s_, 0)
+
+    def awaited(self, svc):
+        return any(c.live and svc in c.owing for c in self.cur.values())
+
+    def sweep_records(self):
+        for s_ in [s_ for s_ in self.records if not self._conf.services.get(s_)]:
+            if not self.awaited(s_):
+                self.release_record(s_)
 
     def release_record(self, svc):
         del self.records[svc]
@@ -348,6 +351,7 @@ class Spec:
     def end(self, c, how):
         c.live = False
         c.end = (how, self.step)
+        self.sweep_records()
 
     # -------------------------------------------------------------- input
     def prereq_done(self, c, proto):
@@ -554,10 +558,7 @@ class Spec:
             c.got_text_reply = True
         elif kind == "AGAIN":
             c.got_text_reply = True
-        if kind != "NO" and svc in self.records:
-            self.records[svc] = max(0, self.records[svc] - 1)
-            if self.records[svc] == 0 and not self.conf.services.get(svc):
-                self.release_record(svc)
+        self.sweep_records()
 
     # ------------------------------------------------------------- output
     def feed_output(self, step, lines):
@@ -583,8 +584,6 @@ class Spec:
         if self.cur.get(c.id) is not c:
             self.v("C01", "query_for_dead", "query carries tag %s of a replaced instance" % tag)
             return
-        if self.step not in c.queried.get(svc, []) and svc in self.records:
-            self.records[svc] += 1
         c.queried.setdefault(svc, []).append(self.step)
         c.owed_ever = True
         if svc not in c.owing:
